@@ -163,16 +163,39 @@ class HistArith(Hist):
             # the caller hands over the circuit's own (live) input list, as generate_* front ends do
             chosen = host.real.inputs
             self.res.stats.probes.bump('gadget-operands-are-the-live-input-list')
+        if chosen and chosen is not host.real.inputs and rng.random() < 0.05:
+            # an operand gate with an unusual but legal label (Label is any str): empty, blank, or spelled like a
+            # placeholder the generators use internally
+            odd = rng.choice(('', ' ', 'inf_label', '_PLACEHOLDER_STR_', 'None', '0', 'new_0'))
+            x = chosen[rng.randrange(len(chosen))]
+            if odd not in pre.gates:
+                try:
+                    host.real.rename_gate(x, odd)
+                    chosen = [odd if c == x else c for c in chosen]
+                    pre, _ = observe.snap(host.real)
+                    self.res.stats.probes.bump('gadget-operand-gate-with-unusual-label')
+                except Exception:  # noqa
+                    pass
+        if chosen and chosen is not host.real.inputs and not spec.get('inputs_only') and rng.random() < 0.05:
+            # the caller declares its operand gates to be the circuit outputs and passes c.outputs itself
+            try:
+                host.real.set_outputs(list(chosen))
+                chosen = host.real.outputs
+                pre, _ = observe.snap(host.real)
+                self.res.stats.probes.bump('gadget-operands-are-the-live-output-list')
+            except Exception:  # noqa
+                pass
         operands_snapshot = list(chosen)
         self.arg_shape = weighted_choice(rng, [('list', 12), ('tuple', 3), ('iterator', 3), ('generator', 2)])
         call, desc = spec['bind'](host.real, chosen)
-        self.ev['call'] = f'#{host.sid}.{desc}' + ('' if self.arg_shape == 'list' else f' [operand lists passed as {self.arg_shape}]')
+        self.ev['call'] = f'#{host.sid}.{desc}' + ('' if self.arg_shape == 'list' else f' [operand lists passed as {self.arg_shape}]') \
+            + (' [operands are c.outputs itself]' if chosen is host.real.outputs else '')
         self.ev['valid'] = True
         repeat = (not spec.get('no_repeat')) and rng.random() < 0.16
         edit = None
         if repeat and rng.random() < 0.55:
             edit = rng.choice(('rename-new-gates', 'remove-dangling-new-gates', 'operand-label-reused-for-another-gate'))
-            if edit.startswith('operand') and (spec.get('inputs_only') or chosen is host.real.inputs):
+            if edit.startswith('operand') and (spec.get('inputs_only') or chosen is host.real.inputs or chosen is host.real.outputs):
                 edit = 'rename-new-gates'
         try:
             rv = call()
@@ -341,7 +364,7 @@ class HistArith(Hist):
         elif pre.gates and spec.get('front') != 'generate':
             if now.outputs != pre.outputs:
                 self.violate(g.prop, 'outputs', f'{g.name}:changed', f'outputs {now.outputs} vs {pre.outputs}')
-        if any(x == '_PLACEHOLDER_STR_' for x in result_labels):
+        if any(x == '_PLACEHOLDER_STR_' for x in result_labels) and '_PLACEHOLDER_STR_' not in pre.gates:
             self.violate(g.prop, 'value', f'{g.name}:placeholder-returned', 'a placeholder string was returned as a result label')
 
     # ------------------------------------------------------------------ specs
